@@ -187,12 +187,24 @@ class RegistryDriver:
                 ctx["blob"][(U.nf(a), b, kind)] = self._dump(val, b)
                 ctx["blobobj"] = ctx.get("blobobj", {})
                 ctx["blobobj"][(U.nf(a), b, kind)] = val
+                if b in ("pickle", "json"):
+                    # the unit's dimension and prefix objects are serialised at the same moment
+                    ctx.setdefault("blobparts", {})[(U.nf(a), b, kind)] = [(name, part, self._dump(part, b)) for name, part in (("dimension", a.dimension), ("prefix", a.prefix))]
                 res = []
             elif op in ("load", "loadf"):
                 if blob.startswith("!"):
                     raise _DumpFailed(blob[1:])
                 got = self._load(blob, b, orig)
                 res = self._judge_loaded(got, kind, b, a, ev, mm, op)
+                if op == "load":
+                    for name, part, pblob in ctx.get("blobparts", {}).get((U.nf(a), b, kind), []):
+                        try:
+                            back = self._load(pblob, b, part)
+                        except Exception as ex:
+                            back = ex
+                        if back is not part:
+                            mm.append(self._mm("C15", "load-%s:%s-serialised-earlier-not-identical" % (b, name),
+                                               "the %s of %s serialised at dump time came back as %r (not the interned %r)" % (name, A.key_str(a), back, part)))
             else:
                 raise MachineryError("unknown op %r" % op)
         except m.FractionalDimensionError:
